@@ -47,6 +47,57 @@ def failed_add_case(rng):
         w.close()
 
 
+def huge_segment_case(run, rng, n=33200):
+    """One segment with more than 2^15 documents: variable-length columns then store an explicit offset
+    array (retyped as offsets grow past 255 / 65535); about half of the documents have no value."""
+    keys = ["h%d" % i for i in range(n)]
+    adocs = {}
+    for i, k in enumerate(keys):
+        d = {"key": k, "t": {}, "n": {}, "s": {}, "c": {}, "b4": 4}
+        if rng.random() < 0.5:
+            d["s"]["blob"] = rng.choice([1, 2, 3])
+        if rng.random() < 0.5:
+            d["c"]["cvar"] = rng.choice([1, 2, 3])
+        if rng.random() < 0.3:
+            d["s"]["tags"] = d["c"]["tags"] = rng.randrange(1, 4)
+        # stretches where every other document has no value, so that the document whose value pushes the
+        # column's running offset past 255 and past 65535 is directly followed by one without a value
+        if 100 <= i < 500:
+            d["c"].pop("cvar", None)
+            d["s"].pop("tags", None)
+            d["c"].pop("tags", None)
+            if i % 2 == 0:
+                d["c"]["cvar"] = 1
+                d["s"]["tags"] = d["c"]["tags"] = 1 + (i // 2) % 3
+        elif 1000 <= i < 1500:
+            d["c"].pop("cvar", None)
+            if i % 2 == 0:
+                d["c"]["cvar"] = 4               # 400 bytes
+        adocs[k] = d
+    plan = [("commit", keys, {})]
+    cfg = {"storage": "file", "mmap": True, "compound": False, "case": "one segment of %d documents" % n}
+    w = cworld.CWorld(cfg)
+    try:
+        w.run(adocs, plan)
+        rd = w.reader()
+        try:
+            idx = cworld.abstract_index(rd, adocs)
+            obs = cworld.dump(rd, idx, w.schema, rng=rng, maxterms=0, vectors=False, terminfo=False, plan=plan)
+            obs = [o for o in obs if o["kind"] in ("stored", "counts", "error")
+                   or (o["kind"] == "column" and o.get("f") in ("cvar", "tags"))]
+            obs.append({"kind": "flag", "path": "single segment", "value": len(rd.leaf_readers()) == 1})
+            run.count(len(obs))
+        finally:
+            rd.close()
+        return [{"idx": idx, "obs": obs, "cfg": cfg, "plan": [["commit", "%d documents" % n]], "adocs": None}]
+    except Exception as ex:
+        return [{"idx": {"docs": []}, "obs": [{"kind": "error", "path": "huge segment", "err": type(ex).__name__,
+                                               "msg": str(ex)[:160], "where": content.where(ex)}],
+                 "cfg": cfg, "plan": None}]
+    finally:
+        w.close()
+
+
 def check(run):
     quick = run.tier == "quick"
     rng = random.Random(run.seed + 808)
@@ -114,6 +165,8 @@ def check(run):
                               "variant": rnd})
             finally:
                 w.close()
+    if not quick:
+        cases += huge_segment_case(run, rng)
     # the _stored_<field> override: the stored value differs from the indexed one
     from whoosh import fields
     from whoosh.filedb.filestore import RamStorage
